@@ -14,7 +14,10 @@ spec -> code : QuadratureMC.tla enumerates (i) every integer interval / degree w
                checked by TLC); (x) every interleaving of the configure / use steps of concurrent calls on the
                module-level qgauss(), on one QGauss object per thread, or read-only on one shared object (THR),
                replayed with real threads paused at function boundaries, plus free-running threads behind a
-               barrier (also on gauleg).  Concurrent calls that change the point count of ONE shared object
+               barrier (also on gauleg).  An interleaving the implementation refuses (a paused thread holds a
+               lock the other needs) is not one of its behaviours: the paused thread is let through, the
+               schedule realised is recorded (`blocked`) and judged; a call that never returns is the
+               observation `deadlock` (rejected by ThrSucc).  Concurrent calls that change the point count of ONE shared object
                are outside the statement and not exercised.
 code -> spec : what gauleg returned, the rules extracted from the integrators with recording /
                indicator integrands, the call-sequence observations, the tabulated-data results
@@ -1274,6 +1277,19 @@ def obs_stress(args):
     return recs
 
 
+def thr_stress_isolated(argslist):
+    """the free-running rounds, each configuration in a forked child: a deadlock leaves locks of the implementation held for
+    ever in the process it happened in (and in everything forked from it later)"""
+    import multiprocessing as mp
+    nproc = max(1, min(len(argslist), int(os.environ.get("VH_MAX_WORKERS", "16"))))
+    with mp.get_context("fork").Pool(nproc) as pool:
+        jobs = [pool.apply_async(obs_stress, (a,)) for a in argslist]
+        try:
+            return [j.get(timeout=1200) for j in jobs]
+        except mp.TimeoutError:
+            raise MachineryError("free-running thread rounds did not come back")
+
+
 # ---- QGauss2 ----------------------------------------------------------------------------------
 TENSOR_IV = [((-1, 1, 0), (0, 2, 0)), ((0, 1, 0), (-3, 1, 0)), ((2, 5, -3), (-1, 1, 4)), ((-5, -2, 0), (1, 3, 0))]
 
@@ -1779,12 +1795,9 @@ def run(ctx):
                 raise MachineryError("no overlapping calls were replayed")
         rounds = 60 if ctx.quick else 400
         sc = [(t, k) for t in ("qgauss", "own", "shared") for k in ("data", "func")] + [("gauleg", "data")]
-        nfree = 0
-        for j, (t, k) in enumerate(sc):
-            if _THR_POISON:                                   # a deadlock was recorded: further rounds in this process would only hang on it
-                break
-            recs += obs_stress((10 ** 6 + j * 10 ** 4, t, k, rounds, ctx.seed))
-            nfree += rounds
+        for rr in thr_stress_isolated([(10 ** 6 + j * 10 ** 4, t, k, rounds, ctx.seed) for j, (t, k) in enumerate(sc)]):
+            recs += rr
+        nfree = sum(1 for r in recs if r["mode"] == "free")
         judge(ctx, recs, "judge thread interleavings and free-running rounds (QuadratureTrace)")
         allrecs += recs
         ov = [r for r in recs if r["mode"] == "stepped" and r["ev"][1]["op"] == "start"]
@@ -1950,8 +1963,13 @@ def selftest(ctx):
     scale_ok = {"k": "scale", "nx": 1200, "ny": 1501, "dj": 1, "dk": 2, "ax": 0, "bx": 2, "ay": 1, "by": 3, "err": "none", "finite": True,
                 "npts": 1200 * 1501, "ndx": 1200, "ndy": 1501, "exact": [52, 3], "prod": True}
     scale_rows = dict(scale_ok, npts=1200 * 1500, ndy=1500, exact=list(rq.OFF), prod=False)       # one row of the grid left out
+    # the implementation refused the interleaving (thread 2 blocked until thread 1 was through): fine, the results still count;
+    # a call that never returned: never allowed
+    thr_ser = dict(thr_good, ev=thr_good["ev"][:2] + [{"op": "blocked", "t": 2}] + thr_good["ev"][2:])
+    thr_ser_bad = dict(thr_good, ev=thr_ser["ev"][:4] + [{"op": "finish", "t": 2, "err": "none", "ok": [3]}])
+    thr_dead = dict(thr_good, ev=thr_good["ev"][:2] + [{"op": "blocked", "t": 2}, {"op": "deadlock", "t": 1}])
     recs = [good, badw, badx, forged, swapped, seq_ok, seq_bad, nest_ok, nest_over, nest_w, nest_mut, ret_ok, ret_bad, ret_rej, ret_may,
-            data_list, data_arr, thr_good, thr_bad, thr_none, thr_none_bad, scale_ok, scale_rows]
+            data_list, data_arr, thr_good, thr_bad, thr_none, thr_none_bad, scale_ok, scale_rows, thr_ser, thr_ser_bad, thr_dead]
     for i, r in enumerate(recs, 1):
         r["id"] = i
     rej = tracecheck.validate(ctx, "QuadratureTrace.tla", [trace_view(r) for r in recs], what="self-test: corrupted records rejected",
@@ -1959,14 +1977,14 @@ def selftest(ctx):
     ctx.traces = saved
     want = {2: "w_sum", 3: "poly_exact", 4: "poly_exact", 5: "ascending", 7: "uses_other_npts@2", 9: "abscissae_overwritten_during_call@7",
             10: "weighted_sum@8", 13: "broadcast_sum", 14: "unexpected_error", 17: "unexpected_error", 19: "not_the_sequential_result@3",
-            21: "not_the_sequential_result@4", 23: "tensor_grid"}
+            21: "not_the_sequential_result@4", 23: "tensor_grid", 25: "not_the_sequential_result@5", 26: "deadlock@4"}
     problems = [(i, rej.get(i)) for i, cl in want.items() if cl not in rej.get(i, [])]
     if "constant_integral" not in rej.get(13, []):
         problems.append((13, rej.get(13)))
     for cl in ("separable_exact", "product_of_marginals"):
         if cl not in rej.get(23, []):
             problems.append((23, rej.get(23)))
-    for i in (1, 6, 8, 11, 12, 15, 16, 18, 20, 22):
+    for i in (1, 6, 8, 11, 12, 15, 16, 18, 20, 22, 24):
         if i in rej:
             problems.append(("genuine record rejected", i, rej.get(i)))
     if problems:
